@@ -227,6 +227,11 @@ def run(ctx):
     if ctx.shard == 0:
         todo += REGRESSION
         todo.append(({"cls": "File", "path": files[0], "chunk_size": 8}, ("GET", [])))
+        # bodies that cross the 1 MiB spool threshold of the ASGI middleware's buffer
+        todo.append(({"cls": "PlainText", "content": bytes(range(256)) * 5000}, ("GET", [])))
+        todo.append(({"cls": "Stream", "chunks": [b"a" * 700_000, b"b" * 700_000, b"", b"tail"]}, ("GET", [])))
+        todo.append(({"app": "raw", "status": 200, "headers": [("Set-Cookie", "a=1"), ("Set-Cookie", "a=1")], "chunks": [b"", b"x" * 1_100_000, b"y"], "shape": "generator",
+                      "one_event": False, "minimal_last": True}, ("GET", [])))
         todo.append(({"cls": "File", "path": files[2], "chunk_size": 3}, ("GET", [("Range", "bytes=0-1,4-5")])))
     for _ in range(ctx.scale(4000, 100_000)):
         r = rng.random()
